@@ -21,7 +21,8 @@ def node_objects(node):
     key = id(node)
     hit = _OBJ_CACHE.get(key)
     if hit is None or hit[0] != node.params.get("name"):
-        hit = (node.params.get("name"), read_objects(node.params))
+        from travsim.harness import permanent_vms
+        hit = (node.params.get("name"), read_objects(node.params, permanent_vms(node)))
         _OBJ_CACHE[key] = hit
     return hit[1]
 
